@@ -14,6 +14,7 @@ package state
 //@ pred samePosition(st) = samePath(st) && st.SizeIdx == old(st.SizeIdx)
 
 //@ func getFlag
+//@   serves C06
 //@   requires int(bitIndex) / 8 < len(bitField)
 //@   ensures result == bit(bitField[int(bitIndex) / 8], int(bitIndex) % 8)
 
@@ -21,36 +22,42 @@ package state
 //@   ensures[C06] @reserved result == (flag > 5)
 
 //@ func (*State).GetFlag
+//@   serves C06
 //@   requires flagsOk(st) && bitIndex < st.BitSize
 //@   ensures result == flag(st, int(bitIndex))
 
 //@ func (*State).MatchFlag
+//@   serves C06
 //@   requires flagsOk(st) && sig < st.BitSize
-//@   ensures[C06] @match result == (matchSet == flag(st, int(sig)))
+//@   ensures @match result == (matchSet == flag(st, int(sig)))
 
 //@ func (*State).SetFlag
+//@   serves C06
 //@   requires flagsOk(st) && bitIndex < st.BitSize
 //@   modifies st.Flags[int(bitIndex) / 8]
-//@   ensures[C06] @set flag(st, int(bitIndex)) && result == !old(flag(st, int(bitIndex)))
-//@   ensures[C06] @others otherFlagsSame(st, int(bitIndex))
+//@   ensures @set flag(st, int(bitIndex)) && result == !old(flag(st, int(bitIndex)))
+//@   ensures @others otherFlagsSame(st, int(bitIndex))
 
 //@ func (*State).ResetFlag
+//@   serves C06
 //@   requires flagsOk(st) && bitIndex < st.BitSize
 //@   modifies st.Flags[int(bitIndex) / 8]
-//@   ensures[C06] @reset !flag(st, int(bitIndex)) && result == old(flag(st, int(bitIndex)))
-//@   ensures[C06] @others otherFlagsSame(st, int(bitIndex))
+//@   ensures @reset !flag(st, int(bitIndex)) && result == old(flag(st, int(bitIndex)))
+//@   ensures @others otherFlagsSame(st, int(bitIndex))
 
 // ---- navigation stack (C04) ----
 //@ pred pathPrefix(st, n) = forall(i, 0, n, st.ExecPath[i] == old(st.ExecPath[i]))
 //@ ghost last(st) = st.ExecPath[len(st.ExecPath)-1]
 
 //@ func (*State).Where
+//@   serves C04
 //@   requires st != nil
-//@   ensures[C04] @where (len(st.ExecPath) == 0 ==> result0 == "" && result1 == 0) && (len(st.ExecPath) > 0 ==> result0 == last(st) && result1 == st.SizeIdx)
+//@   ensures @where (len(st.ExecPath) == 0 ==> result0 == "" && result1 == 0) && (len(st.ExecPath) > 0 ==> result0 == last(st) && result1 == st.SizeIdx)
 
 //@ func (*State).Top
+//@   serves C04
 //@   requires st != nil
-//@   ensures[C04] @top (len(st.ExecPath) == 0 ==> result1 != nil && !result0) && (len(st.ExecPath) > 0 ==> result1 == nil && result0 == (len(st.ExecPath) == 1))
+//@   ensures @top (len(st.ExecPath) == 0 ==> result1 != nil && !result0) && (len(st.ExecPath) > 0 ==> result1 == nil && result0 == (len(st.ExecPath) == 1))
 
 //@ func (*State).Depth
 //@   requires st != nil
@@ -59,46 +66,51 @@ package state
 // Down panics deliberately beyond MaxLevel and when descending into the node
 // it is already in; both are preconditions here and obligations at call sites.
 //@ func (*State).Down
+//@   serves C04
 //@   requires st != nil && len(st.ExecPath) <= MaxLevel
 //@   requires len(st.ExecPath) > 0 ==> last(st) != input
 //@   modifies st.ExecPath, st.ExecPath[*], st.SizeIdx, st.Moves, st.lastMove
-//@   ensures[C04] @down result == nil && len(st.ExecPath) == old(len(st.ExecPath)) + 1 && last(st) == input && st.SizeIdx == 0
-//@   ensures[C04] @kept pathPrefix(st, old(len(st.ExecPath)))
+//@   ensures @down result == nil && len(st.ExecPath) == old(len(st.ExecPath)) + 1 && last(st) == input && st.SizeIdx == 0
+//@   ensures @kept pathPrefix(st, old(len(st.ExecPath)))
 
 //@ func (*State).Up
+//@   serves C04
 //@   requires st != nil
 //@   modifies st.ExecPath, st.SizeIdx, st.Moves, st.lastMove
-//@   ensures[C04] @empty old(len(st.ExecPath)) == 0 ==> result1 != nil && samePosition(st) && unchanged(st.Moves, st.lastMove)
-//@   ensures[C04] @up old(len(st.ExecPath)) > 0 ==> result1 == nil && len(st.ExecPath) == old(len(st.ExecPath)) - 1 && st.SizeIdx == 0
+//@   ensures @empty old(len(st.ExecPath)) == 0 ==> result1 != nil && samePosition(st) && unchanged(st.Moves, st.lastMove)
+//@   ensures @up old(len(st.ExecPath)) > 0 ==> result1 == nil && len(st.ExecPath) == old(len(st.ExecPath)) - 1 && st.SizeIdx == 0
 //@     && pathPrefix(st, len(st.ExecPath))
-//@   ensures[C04] @sym old(len(st.ExecPath)) > 1 ==> result0 == last(st)
-//@   ensures[C04] @symtop old(len(st.ExecPath)) == 1 ==> result0 == ""
+//@   ensures @sym old(len(st.ExecPath)) > 1 ==> result0 == last(st)
+//@   ensures @symtop old(len(st.ExecPath)) == 1 ==> result0 == ""
 
 //@ func (*State).Next
+//@   serves C04
 //@   requires st != nil
 //@   modifies st.SizeIdx, st.Moves, st.lastMove
-//@   ensures[C04,C02] @empty len(st.ExecPath) == 0 ==> result1 != nil && unchanged(st.SizeIdx, st.Moves, st.lastMove)
-//@   ensures[C04,C02] @next len(st.ExecPath) > 0 ==> result1 == nil && int(st.SizeIdx) == (old(int(st.SizeIdx)) + 1) % 65536 && result0 == st.SizeIdx
-//@   ensures[C04] @path samePath(st)
+//@   ensures @empty len(st.ExecPath) == 0 ==> result1 != nil && unchanged(st.SizeIdx, st.Moves, st.lastMove)
+//@   ensures @next len(st.ExecPath) > 0 ==> result1 == nil && int(st.SizeIdx) == (old(int(st.SizeIdx)) + 1) % 65536 && result0 == st.SizeIdx
+//@   ensures @path samePath(st)
 
 //@ func (*State).Previous
+//@   serves C04
 //@   requires st != nil
 //@   modifies st.SizeIdx, st.Moves, st.lastMove
-//@   ensures[C04,C02] @empty len(st.ExecPath) == 0 ==> result1 != nil && unchanged(st.SizeIdx, st.Moves, st.lastMove)
-//@   ensures[C04,C02,C03] @first len(st.ExecPath) > 0 && old(st.SizeIdx) == 0 ==> result1 == IndexError && unchanged(st.SizeIdx, st.Moves, st.lastMove)
-//@   ensures[C04,C02] @previous len(st.ExecPath) > 0 && old(st.SizeIdx) > 0 ==> result1 == nil && int(st.SizeIdx) == old(int(st.SizeIdx)) - 1 && result0 == st.SizeIdx
-//@   ensures[C04] @path samePath(st)
+//@   ensures @empty len(st.ExecPath) == 0 ==> result1 != nil && unchanged(st.SizeIdx, st.Moves, st.lastMove)
+//@   ensures @first len(st.ExecPath) > 0 && old(st.SizeIdx) == 0 ==> result1 == IndexError && unchanged(st.SizeIdx, st.Moves, st.lastMove)
+//@   ensures @previous len(st.ExecPath) > 0 && old(st.SizeIdx) > 0 ==> result1 == nil && int(st.SizeIdx) == old(int(st.SizeIdx)) - 1 && result0 == st.SizeIdx
+//@   ensures @path samePath(st)
 
 //@ func (*State).Same
+//@   serves C04
 //@   requires st != nil
 //@   modifies st.Moves
-//@   ensures[C04] @same samePosition(st)
+//@   ensures @same samePosition(st)
 
 //@ func (*State).SetInput
 //@   requires st != nil
 //@   modifies st.input
-//@   ensures[C17,C08] @limit len(input) > 255 ==> result != nil && unchanged(st.input)
-//@   ensures[C17] @accepted len(input) <= 255 ==> result == nil && st.input == input
+//@   ensures @limit len(input) > 255 ==> result != nil && unchanged(st.input)
+//@   ensures @accepted len(input) <= 255 ==> result == nil && st.input == input
 
 //@ func (*State).GetInput
 //@   requires st != nil
